@@ -790,4 +790,49 @@ theorem one_per_element (items : List (Nat × Pseudo)) :
           simp only [Option.map_some, Option.some.injEq, List.contains_nil, Bool.or_false]
           cases seen.contains x <;> cases (x == b) <;> simp
 
+open Wp.Metadata in
+/-- Number of boxes of `b` (element, pseudo-element kind) that keep their bookmark label. -/
+def keptFor (b : Nat × Pseudo) (items : List (Nat × Pseudo)) (seen : List (Nat × Pseudo)) : Nat :=
+  ((items.zip (watch items seen)).filter (fun p => p.1 == b && p.2)).length
+
+open Wp.Metadata in
+/-- One outline entry per bookmarked element, whatever lies between its fragments: for every element
+(and pseudo-element kind) `b`, exactly one of its labelled boxes keeps the label — none if an earlier
+page already listed it (`seen`) — however its boxes are interleaved with boxes of other bookmarked
+elements (a bookmarked container continuing after the bookmarked headings it contains, an inline
+bookmarked element broken over lines, `::before` / `::after` bookmarks). -/
+theorem one_bookmark_per_element (b : Nat × Pseudo) (items : List (Nat × Pseudo)) :
+    ∀ (seen : List (Nat × Pseudo)),
+      keptFor b items seen = if seen.contains b then 0 else if items.contains b then 1 else 0 := by
+  induction items with
+  | nil => intro seen; simp [keptFor, watch]
+  | cons x rest ih =>
+    intro seen
+    unfold keptFor at ih ⊢
+    by_cases hx : seen.contains x = true
+    · have hxm : x ∈ seen := List.contains_iff_mem.mp hx
+      simp only [watch, hx, if_true, List.zip_cons_cons, List.filter_cons, Bool.and_false, Bool.false_eq_true, if_false]
+      rw [ih seen]
+      by_cases hb : b ∈ seen
+      · simp [hb]
+      · have hne : b ≠ x := fun e => hb (e ▸ hxm)
+        simp [hb, hne]
+    · have hxm : x ∉ seen := fun h => hx (List.contains_iff_mem.mpr h)
+      simp only [watch, hx, Bool.false_eq_true, if_false, List.zip_cons_cons, List.filter_cons, Bool.and_true]
+      by_cases hxb : x = b
+      · subst hxb
+        simp only [beq_self_eq_true, if_true, List.length_cons]
+        rw [ih (seen ++ [x])]
+        simp [hxm]
+      · have hbx : b ≠ x := fun e => hxb e.symm
+        have hxb' : (x == b) = false := by simpa using hxb
+        simp only [hxb', Bool.false_eq_true, if_false]
+        rw [ih (seen ++ [x])]
+        simp [hbx]
+
+open Wp.Metadata in
+/-- A container (element 0) whose boxes come back after each bookmarked heading it contains. -/
+example : watch [(0, .none), (1, .none), (0, .none), (2, .none), (2, .before), (0, .none), (2, .none)] [] =
+    [true, true, false, true, true, false, false] := by decide
+
 end Wp.C18
